@@ -307,6 +307,11 @@ static int shape_main(int argc, char** argv) {
           std::string nm = step_name(t);
           CUR_SIG = ST[s].sig; CUR_OSIG = t.operand >= 0 ? ST[t.operand].sig : std::string();
           CUR_OP = t.kind == 'o' ? &OPS[t.idx] : 0; CUR_Q = t.kind == 'q' ? &QS[t.idx] : 0; CUR_CLS = ST[s].cls; CUR_OCLS = t.operand >= 0 ? ST[t.operand].cls : -1;
+          LAST_BAD = false; CUR_PIECES.clear(); CUR_LOST = -1; CUR_AFTER = -1;
+          if (t.kind == 'o' && OPS[t.idx].exact) {     // the exact result, for triggers that talk about it
+            USet u = OPS[t.idx].exact(CL[ST[s].cls], t.operand >= 0 ? &CL[ST[t.operand].cls] : 0);
+            for (size_t k = 0; k < u.size(); ++k) { int c = CL.classify(u[k]); if (!cls_empty(c)) CUR_PIECES.push_back(c); }
+          }
           TrigIn ti{t.kind == 'o' ? &OPS[t.idx] : 0, t.kind == 'q' ? &QS[t.idx] : 0, ST[s].cls, t.operand >= 0 ? ST[t.operand].cls : -1, std::string("crash:") + signame(sig)};
           report_violation(site_of(nm), std::string("crash:") + signame(sig), trigger_for(ti), input_json(s, nm, t.operand), signame(sig), "normal return");
           return;
@@ -323,7 +328,7 @@ static int shape_main(int argc, char** argv) {
     }
   };
   limit_memory(6ULL << 30);
-  pool().run(NG + NS, ARGS.jobs, fn, cf, ARGS, 120);
+  pool().run(NG + NS, ARGS.jobs, fn, cf, ARGS, atoi(ARGS.opt("--step-timeout", "20").c_str()));
   bool complete = counter(CNT_SKIPPED) == 0 && counter(CNT_REFCRASH) == 0;
   std::vector<std::string> samples;
   for (size_t i = 0; i < REPS.size(); i += std::max<size_t>(1, REPS.size() / 3)) samples.push_back(hist_json(REPS[i]));
